@@ -5,7 +5,7 @@ import ast
 import re
 
 from harness import impl
-from harness.common import rng, short
+from harness.common import quick_scale, rng, short
 from harness.gen import corpus, mutate, pyprog
 
 XONSH_LEXEME = re.compile(r"[$?`!]|&&|\|\||@\(")
@@ -82,7 +82,7 @@ def nesting_ok(src: str, limit=50) -> bool:
 def build_inputs(tier: str):
     r = rng("C01", "gen")
     cases = []  # (ident, src, mode, tags)
-    nprog = 300 if tier == "quick" else 6000
+    nprog = 300 * quick_scale() if tier == "quick" else 6000
     for i in range(nprog):
         g = pyprog.gen_program(r, fstrings=False, maxdepth=3 if i % 3 else 4, nstmts=r.randint(1, 3))
         if not g:
